@@ -11,7 +11,7 @@
     Nothing else is assumed about [iso]: in particular the theorems cover the transitivity shortcut of the code
     (an item is compared only with the FIRST member of each class / with one stored template per class). *)
 From Coq Require Import List NArith ZArith Bool Arith Permutation.
-From SK Require Import lib.LGraph lib.C13_Partition model.C13_Model proof.C13_Proof proof.C13_More proof.C13_Iso proof.C13_Templates proof.C13_Clusters.
+From SK Require Import lib.LGraph lib.C13_Partition model.C13_Model proof.C13_Proof proof.C13_More proof.C13_Iso proof.C13_Templates proof.C13_Clusters proof.C13_Before.
 Import ListNotations.
 
 (** 1. GraphCluster.fit / iterative_cluster: every item gets exactly one class (the list of classes has the length
@@ -298,3 +298,17 @@ Theorem C13_clusters_partition :
    exists c, c < length (fst (gc_iterative iso mode data)) /\ In i (nth c (fst (gc_iterative iso mode data)) [])).
 Proof. exact (fun iso mode data => conj (clusters_disjoint iso mode data) (clusters_cover iso mode data)). Qed.
 Print Assumptions C13_clusters_partition.
+
+(** ** 9. documentation of the defect repaired in round 1 (/repo 6f9daf3, known_findings.d/C13.json): with lib_check
+    comparing list attributes in raw order ([lib_check_before] / [cluster_before], the code before the repair) two items
+    with an isomorphism-invariant attribute (equal as multisets) that the one-shot path puts together are split by the
+    batched path; the repaired code puts them together (theorem 4) *)
+Theorem C13_unsorted_attribute_before_repair_refuted :
+  exists (iso : item -> item -> bool) (data : list item),
+    (forall x y, iso x y = true) /\
+    (forall x y, In x data -> In y data -> gc_key AList x = gc_key AList y) /\
+    gc_fit iso AList data = [Some 0; Some 0] /\
+    fst (cluster_before iso AList data []) = [0; 1]%Z /\
+    fst (cluster iso AList data []) = [0; 0]%Z.
+Proof. exact unsorted_attribute_before_repair. Qed.
+Print Assumptions C13_unsorted_attribute_before_repair_refuted.
